@@ -210,3 +210,78 @@ def match_known(known, finding: Finding):
         if k.get("match") and k["match"] in finding.name:
             return k
     return None
+
+
+def type_str(t):
+    k = t.kind
+    if k == "obj":
+        return t.name
+    if k == "ext":
+        return "ext:" + t.name
+    if k == "opt":
+        return f"Optional[{type_str(t.args[0])}]"
+    if k in ("list", "tuple", "dict", "set"):
+        return f"{k}[{','.join(type_str(a) for a in t.args)}]"
+    if k == "real":
+        return "float"
+    if k == "none":
+        return "None"
+    return k
+
+
+def bounded_job(eng, key, budget, seed):
+    import ast as _ast
+    c = eng.reg.get(key)
+    fn = eng.repo.func(key)
+    a = fn.node.args
+    names = [p.arg for p in a.posonlyargs + a.args + a.kwonlyargs]
+    params = {}
+    self_type = None
+    anns = {p.arg: p.annotation for p in a.posonlyargs + a.args + a.kwonlyargs}
+    from .pytypes import parse_type
+    for nm in names:
+        if nm == "self" and fn.cls is not None:
+            self_type = fn.cls.name
+            continue
+        t = c.params.get(nm)
+        if t is None and anns.get(nm) is not None:
+            t = parse_type(_ast.unparse(anns[nm]))
+        params[nm] = type_str(t) if t is not None else "any"
+    ensures = {k: v for k, v in c.ensures.items() if "iter_" not in v}
+    wrap = []
+    text = " ".join(ensures.values())
+    for m_ in eng.repo.modules.values():
+        for f_ in list(m_.funcs.values()) + [mm for c_ in m_.classes.values() for mm in c_.methods.values()]:
+            if f"'{f_.qualname}'" in text or f'"{f_.qualname}"' in text:
+                wrap.append(f_.key)
+    classes = {name: {f: type_str(t) for f, t in fields.items()} for name, fields in eng.reg.classes.items()
+               if not name.startswith("ext:")}
+    return {"function": key, "params": params, "self_type": self_type, "requires": c.requires, "ensures": ensures,
+            "wrap": wrap, "budget": budget, "seed": seed, "classes": classes, "raises": list(c.raises)}
+
+
+def run_bounded(eng, pid, key, budget, seed):
+    job = bounded_job(eng, key, budget, seed)
+    try:
+        p = run_runtime("bounded.py", [], timeout=600, input_json=job)
+        res = json.loads(p.stdout.strip().splitlines()[-1]) if p.stdout.strip() else {"fault": p.stderr[-600:]}
+    except Exception as e:  # noqa
+        res = {"fault": repr(e)}
+    out = {"name": f"contract-at-runtime:{key}", "kind": "bounded stand-in (same contract clauses evaluated by CPython on the real function)",
+           "bound": f"{budget} inputs: boundary integers {{-1,0,1,2,14..17,29..32,59..62,100,1000}}, lists up to length 2 exhaustively "
+                    f"over a small pool plus seeded random lists of length 3..6, objects built from the declared schema",
+           "evaluations": res.get("evaluations", 0), "distinct_nontrivial": res.get("distinct_nontrivial", 0),
+           "rule": "inputs enumerated per parameter type; distinct = distinct input tuples that satisfy the precondition",
+           "samples": res.get("samples", []), "failures": []}
+    if res.get("fault"):
+        out["note"] = "harness could not run: " + res["fault"][-300:]
+    for fl in res.get("failures", []):
+        os.makedirs(os.path.join(VERIF, "replays", pid), exist_ok=True)
+        safe = "".join(ch if ch.isalnum() or ch in "._-" else "_" for ch in fl["name"].split(":", 1)[-1])[:90]
+        path = os.path.join("replays", pid, f"bounded__{safe}.json")
+        with open(os.path.join(VERIF, path), "w") as f:
+            json.dump({"property": pid, "function": key, "obligation": fl["name"], "clause": fl["what"], "kind": "bounded",
+                       "inputs_described": fl.get("inputs"), "observed": fl.get("observed"),
+                       "note": "failing input found by the bounded stand-in on the real function"}, f, indent=1, default=str)
+        out["failures"].append({"name": fl["name"], "what": fl["what"], "replay": path, "inputs": fl.get("inputs")})
+    return out
